@@ -15,6 +15,8 @@ Decided clauses:
         public ISA-specific functions exist only in that unit; in the CPU-feature detection the
         AVX / AVX2 / AVX-512 flags are set only under the CPUID test and the XGETBV (OS state) test,
         AVX2 only under AVX, AVX-512 only under AVX2; accessors return their own field.
+  R10.5 the Argon2 block-fill backends (ref / SSSE3 / AVX2 / AVX-512F) have the same role-normalised scalar
+        control skeleton: every branch condition and every reference-index computation agrees (E7).
   R10.4 contradiction rules on the limb code of every alternative backend: no identically-zero carry
         (E12 known-bits) and no branch-free select mixing unrelated values.
 NOT decided: byte-identity of results across backends / build configurations (equivalence of
@@ -309,6 +311,7 @@ def run(ctx, chk):
             continue
         load_of = {e.res: e for e in p.events if e.kind == "load"}
         xg = [e for e in p.calls() if e.callee[0] == "asm" and ".byte 0x0f, 0x01, 0xd0" in e.callee[1]]
+        cpuid_res = {e.res for e in p.calls() if e.callee[0] == "asm" and "cpuid" in e.callee[1].lower() and e.res is not None}
         for e in p.stores():
             if e.addr[0] not in ("gep", "arg") or T.root(e.addr) != ("arg", 0):
                 continue
@@ -329,6 +332,8 @@ def run(ctx, chk):
                 for l in T.leaves(t):
                     if l[0] == "call" and xg and any(l == x.res for x in xg):
                         dep_x = True
+                    if l in cpuid_res:
+                        dep_c = True        # (the CPUID helper was inlined: its outputs are used directly)
                     if l[0] == "load":
                         le = load_of.get(l)
                         if le is not None:
@@ -369,6 +374,11 @@ def run(ctx, chk):
                               allowed=[("_sodium_scalarmult_curve25519_sandy2x_fe_frombytes",
                                         "sandy2x decoder: h9 has 25 bits by construction, `carry9 = h9 >> 25` is zero by design")], floor=60)
     knownbits.select_idiom_rule(prog, chk, "R10.4", BACKEND_UNITS, floor=3)
+
+    # ---- R10.5 sibling agreement of the Argon2 block-fill backends (E7) ---------------------------------------------------
+    cm.sibling_skeleton_rule(prog, chk, "R10.5", ["argon2_fill_segment_ref", "argon2_fill_segment_ssse3", "argon2_fill_segment_avx2",
+                                                   "argon2_fill_segment_avx512f"], {0: "INST", 1: "POS"},
+                             ("index_alpha", "generate_addresses"), floor_shapes=20)
 
 
 def all_and(t):
